@@ -566,4 +566,12 @@ def rule_c06r11(ctx):
     return r(ctx)
 
 
-RULES = [("C06-R11", rule_c06r11), ("C07-R2", rule_c07r2), ("C12-R1", rule_r1), ("C12-R2", rule_r23), ("C12-R4", rule_r4), ("C12-R5", rule_r5), ("C12-R7", rule_r7), ("C12-R8", rule_r8), ("C12-R9", rule_r9), ("C12-R6", rule_c06r6), ("C06-R4", rule_c06r4), ("C06-R3", rule_c06r3)]
+def rule_c06r5(ctx):
+    """How a class body reads its own members (class dict with a lazy fallback to the plain name) decides
+    the values of the class attributes: shared rule C06-R5."""
+    from .c06 import rule_r5 as r
+
+    return r(ctx)
+
+
+RULES = [("C06-R5", rule_c06r5), ("C06-R11", rule_c06r11), ("C07-R2", rule_c07r2), ("C12-R1", rule_r1), ("C12-R2", rule_r23), ("C12-R4", rule_r4), ("C12-R5", rule_r5), ("C12-R7", rule_r7), ("C12-R8", rule_r8), ("C12-R9", rule_r9), ("C12-R6", rule_c06r6), ("C06-R4", rule_c06r4), ("C06-R3", rule_c06r3)]
